@@ -1,7 +1,3 @@
-// Package c10 decides C10 (promise jobs run exactly once, in the specification's FIFO order, before control
-// returns to Go; rejection tracker; interrupt discards queued jobs) by bounded-exhaustive enumeration of
-// promise-operation programs (engine E1) executed in lock-step on goja and on the reference model
-// verif/ref/promisemodel.
 package c10
 
 import (
@@ -59,6 +55,12 @@ type modelResult struct {
 }
 
 func runModel(p *pm.Program, stopAt int, wantKeys bool) (res modelResult) {
+	defer func() {
+		if x := recover(); x != nil {
+			// a bug of the model or of the enumerator, never of goja: surfaces as a mismatch with this line
+			res.transcript = []string{"!model-panic:" + firstLine(fmt.Sprint(x))}
+		}
+	}()
 	m := pm.New(p)
 	m.StopAtJSLog = stopAt
 	if wantKeys {
@@ -77,6 +79,7 @@ type implResult struct {
 	panicked    string
 	interrupted bool
 	requested   bool
+	nested      bool
 	steps       int
 	frames      string
 	post        []string // interrupt variant: problems found after the interrupted run
@@ -111,6 +114,7 @@ func runImplOpts(p *pm.Program, o implOpts) (res implResult) {
 	res.interrupted = ir.interrupted
 	res.steps = ir.steps
 	res.requested = ir.requested
+	res.nested = ir.nestedDrain
 	res.frames = ir.frames
 	if o.interruptAt > 0 || o.stepAt > 0 {
 		res.post = ir.afterInterrupt()
@@ -352,7 +356,7 @@ func compare(p *pm.Program, want []string, impl *implResult) (fails []failure) {
 		return append(fails, mk("go-panic|"+f.kindList(), "Go panic while running the program: "+impl.panicked, got))
 	}
 	// (3) nested drain through a native handler
-	if f.native && sameMultiset(want, got) {
+	if impl.nested || f.native && sameMultiset(want, got) {
 		return append(fails, mk(sigNested, "a Go native used directly as a reaction handler calls a resolver obtained from Runtime.NewPromise while the job queue is drained from a Go-side entry: the resolver drains the queue recursively, so later-enqueued jobs run before earlier ones; "+where, got))
 	}
 	class := "differs"
@@ -370,9 +374,10 @@ func compare(p *pm.Program, want []string, impl *implResult) (fails []failure) {
 func compareInterrupt(p *pm.Program, k int, mr *modelResult, impl *implResult) (fails []failure) {
 	want := mr.transcript
 	js := p.Text()
-	where := "?"
+	where := mr.stopCtx // where the interrupted log call was made from: script | job | go-settle [/async-start]
+	at := ""
 	if len(want) > 0 {
-		where = mr.stopCtx + "/" + lineKind(want[len(want)-1])
+		at = want[len(want)-1]
 	}
 	mk := func(kind, what string) []failure {
 		return []failure{{fmt.Sprintf("interrupt|%s|in:%s", kind, where), what, Case{Variant: "interrupt", K: k, JS: js, Prog: *p, Want: want, Got: impl.transcript, Note: strings.Join(impl.post, "; ")}}}
@@ -406,7 +411,7 @@ func compareInterrupt(p *pm.Program, k int, mr *modelResult, impl *implResult) (
 		if i := strings.IndexAny(pr, "=:("); i > 0 {
 			kind = pr[:i]
 		}
-		return mk(kind, fmt.Sprintf("after an Interrupt raised inside log call #%d (%s): %s", k, where, strings.Join(impl.post, "; ")))
+		return mk(kind, fmt.Sprintf("after an Interrupt raised inside log call #%d (%s, in %s): %s", k, at, where, strings.Join(impl.post, "; ")))
 	}
 	return nil
 }
@@ -573,8 +578,19 @@ func normNames(l []string) []string {
 }
 
 func compareStep(p *pm.Program, k int, want []string, impl *implResult) []failure {
+	// label: where (in the model) the last log call before the interrupt was made from
+	nlogs := 0
+	for _, l := range impl.transcript {
+		if !strings.HasPrefix(l, "T") && !strings.HasPrefix(l, "==") && !strings.HasPrefix(l, "!") && !strings.HasPrefix(l, "oc:") && !strings.HasPrefix(l, "n") {
+			nlogs++
+		}
+	}
+	where := "none"
+	if nlogs > 0 {
+		where = runModel(p, nlogs, false).stopCtx
+	}
 	mk := func(kind, what string) []failure {
-		return []failure{{fmt.Sprintf("interrupt-step|%s|frames:%s", kind, impl.frames), what,
+		return []failure{{fmt.Sprintf("interrupt-step|%s|last-log-in:%s", kind, where), what,
 			Case{Variant: "istep", K: k, JS: p.Text(), Prog: *p, Want: want, Got: impl.transcript, Note: strings.Join(impl.post, "; ")}}}
 	}
 	if impl.panicked != "" {
@@ -720,30 +736,45 @@ func run(r *core.Run) {
 	// levels in order (simplest first); "full" = the whole alphabet up to a total weight, "kernel" = exactly n
 	// operations of weight 1 (deep interleavings of plain chains); i* = the interrupt variant of the same space.
 	type lvl struct {
-		kind string // full | kernel | ifull | ikernel | cfull (Callable entry) | sfull (interrupt before every VM instruction)
+		kind string // full | kernel | ifull | ikernel | cfull (Callable entry) | sfull (interrupt before every VM instruction) | ruler2 (w = 10*limA+limB)
 		w    int
 	}
 	var plan []lvl
 	maxOps, maxP := r.Pick(5, 6), 5
 	if r.Quick() {
 		plan = []lvl{{"full", 1}, {"full", 2}, {"full", 3}, {"ifull", 1}, {"ifull", 2}, {"ifull", 3}, {"cfull", 1}, {"cfull", 2}, {"cfull", 3},
-			{"sfull", 1}, {"sfull", 2}, {"full", 4}, {"kernel", 5}, {"sfull", 3}, {"ikernel", 4}}
+			{"sfull", 1}, {"sfull", 2}, {"ruler2", 11}, {"full", 4}, {"ruler2", 22}, {"kernel", 5}, {"sfull", 3}, {"ikernel", 4}}
 	} else {
 		plan = []lvl{{"full", 1}, {"full", 2}, {"full", 3}, {"full", 4}, {"ifull", 1}, {"ifull", 2}, {"ifull", 3},
-			{"cfull", 1}, {"cfull", 2}, {"cfull", 3}, {"sfull", 1}, {"sfull", 2},
-			{"full", 5}, {"ifull", 4}, {"cfull", 4}, {"sfull", 3}, {"kernel", 6}, {"ikernel", 5}, {"sfull", 4}, {"full", 6}}
+			{"cfull", 1}, {"cfull", 2}, {"cfull", 3}, {"sfull", 1}, {"sfull", 2}, {"ruler2", 22},
+			{"full", 5}, {"ifull", 4}, {"cfull", 4}, {"sfull", 3}, {"ruler2", 33}, {"kernel", 6}, {"ikernel", 5}, {"sfull", 4}, {"full", 6}}
 	}
 	r.Set("max_ops", maxOps)
 	r.Set("max_promises", maxP)
-	bounds := map[string]int{"full_weight": 0, "kernel_ops": 0, "interrupt_full_weight": 0, "interrupt_kernel_ops": 0, "callable_entry_full_weight": 0, "interrupt_step_full_weight": 0}
+	bounds := map[string]int{"full_weight": 0, "kernel_ops": 0, "interrupt_full_weight": 0, "interrupt_kernel_ops": 0, "callable_entry_full_weight": 0, "interrupt_step_full_weight": 0, "ruler2_weights": 0}
 	target := map[string]int{}
-	names := map[string]string{"full": "full_weight", "kernel": "kernel_ops", "ifull": "interrupt_full_weight", "ikernel": "interrupt_kernel_ops", "cfull": "callable_entry_full_weight", "sfull": "interrupt_step_full_weight"}
+	names := map[string]string{"full": "full_weight", "kernel": "kernel_ops", "ifull": "interrupt_full_weight", "ikernel": "interrupt_kernel_ops", "cfull": "callable_entry_full_weight", "sfull": "interrupt_step_full_weight", "ruler2": "ruler2_weights"}
 	for _, l := range plan {
 		target[names[l.kind]] = l.w
 	}
 	r.Set("bounds_target", target)
 	complete := true
 	for _, l := range plan {
+		if l.kind == "ruler2" {
+			rp := rulerPrograms2(l.w/10, l.w%10)
+			if !r.Parallel(int64(len(rp)), 16, func(wi int, lo, hi int64) {
+				for i := lo; i < hi; i++ {
+					e.full(e.workers[wi], &rp[i], i)
+				}
+				r.Add("ruler2_programs", hi-lo)
+			}) {
+				complete = false
+				break
+			}
+			bounds["ruler2_weights"] = l.w
+			r.Set("bounds_completed", bounds)
+			continue
+		}
 		L := limits{maxOps: maxOps, maxP: maxP}
 		if l.kind == "kernel" || l.kind == "ikernel" {
 			L.maxOpCost = 1
